@@ -47,6 +47,8 @@ def replay_cmd(cfg, binpath, pid, path):
     for line in head.splitlines():
         if line.startswith("#! target "):
             return [os.path.join(vflib.harness_dir(TARGETS[line.split()[2]]["variant"]), line.split()[2]), "--replay", pid, path]
+    if "#! kind vector_lattice" in head:
+        return [os.path.join(vflib.harness_dir("asan"), "t_vector"), "--lattice", "--out", os.path.join(WORK, "lattice_replay.json")]
     if "#! kind handle_index" in head:
         return [os.path.join(vflib.harness_dir("opt"), "t_handles"), "--replay", path]
     return [binpath, "--replay", pid, path]
@@ -178,7 +180,28 @@ def pre_handles_exhaustive(pid, violations):
             "exhaustive_scope": "handle conversion identities over every index in [0, 2^30); the history part is sampled"}
 
 
-PRE = {"handles_exhaustive": pre_handles_exhaustive}
+def pre_vector_lattice(pid, violations):
+    """C19 part 1: complete enumeration of the integer lattice in the sanitizer build"""
+    bins = build_targets(["t_vector"])
+    d = os.path.join(WORK, pid, "lattice")
+    os.makedirs(d, exist_ok=True)
+    out = os.path.join(d, "lattice.json")
+    r = subprocess.run([bins["t_vector"], "--lattice", "--out", out], stdout=subprocess.PIPE, stderr=subprocess.STDOUT, text=True, env=sanitizer_env())
+    try:
+        s = json.load(open(out))
+    except Exception:
+        s = {"lattice_pairs": 0, "fail": "lattice run aborted: " + r.stdout[-500:]}
+    if r.returncode != 0 or s["fail"]:
+        rp = os.path.join(REPLAYS, pid)
+        os.makedirs(rp, exist_ok=True)
+        path = os.path.join(rp, "fail-lattice.txt")
+        open(path, "w").write("#! id %s\n#! kind vector_lattice\n# %s\n" % (pid, s["fail"]))
+        violations.append((path, "lattice enumeration: " + s["fail"]))
+    return {"lattice_pairs_enumerated": s["lattice_pairs"], "exhaustive": not s["fail"],
+            "exhaustive_scope": "all ordered vector pairs over {-2..2}^D / {0..4}^D, D=2,3,4, int/unsigned/float/double; the special-value and mesh part is sampled"}
+
+
+PRE = {"handles_exhaustive": pre_handles_exhaustive, "vector_lattice": pre_vector_lattice}
 
 
 def run_rc_program(pid, tier, cfg):
